@@ -309,6 +309,30 @@ func c12Descriptor(x *c12ctx, jr *rand.Rand, cred *world.Cred, m int64, sign int
 		x.verifyAndJudge("box-false-ref", fmt.Sprintf("%s lie#%d", desc, vi), dd, cred, ctx, nonce, false)
 	}
 	x.ownResponse(cred, desc, sign, a, k, nsq, ctx, nonce)
+	// negative roots: d_i = -e_i with sum e_i^2 = |delta|, randomisers 0, so that the d responses are negative. The squares are
+	// the same, the relation still fails by 2|delta| - unless the verifier treats the sign of an exponent of C_i differently
+	// from the sign of an exponent of R
+	if es := refimpl.FourSquares(new(big.Int).Abs(delta)); es != nil && nsq <= len(es) {
+		for variant := 0; variant < 4; variant++ {
+			zeroRand, v5abs := variant&1 == 0, variant&2 != 0
+			neg := make([]*big.Int, nsq)
+			for i := range neg {
+				neg[i] = new(big.Int).Neg(es[i])
+			}
+			dis, hid := hiddenOf(cred, []int{1})
+			p := refimpl.NewDProver(x.key.PK, cred.C.Signature, dis, hid)
+			rp := &refimpl.RangeProver{PK: x.key.PK, Index: 2, M: cred.NormLedger(2), MRand: p.R[2], Sign: sign, A: a, K: k, Ld: 128, D: neg, DRandZero: zeroRand, V5Abs: v5abs}
+			var dd *gabi.ProofD
+			if pv, _ := mon.Try(func() {
+				p.Extra = rp.Commit()
+				c := refimpl.Challenge(ctx, nonce, p.Commit(), false)
+				dd = p.Respond(c)
+				dd.RangeProofs = map[int][]*rangeproof.Proof{2: {rp.Respond(c)}}
+			}); pv == nil && dd != nil {
+				x.verifyAndJudge("box-false-ref", fmt.Sprintf("%s negative roots (zero d randomisers=%v, v5 over |d_i|=%v)", desc, zeroRand, v5abs), dd, cred, ctx, nonce, false)
+			}
+		}
+	}
 }
 
 // c12OwnResponse: a range proof computed about a foreign value m* for which the statement is TRUE, carrying its own response
